@@ -13,6 +13,8 @@ CONSTANTS
   DefDeps <- L_core_DefDeps
   NameInfo <- L_core_NameInfo
   NodeIds = {1, 2, 3}
+  OpKinds = {"register", "unregister", "define_type", "import", "instantiate", "alias", "set_arg", "unset_arg", "export", "unexport", "set_name", "remove"}
+  InitReg = {}
   DEV_StaleSat = FALSE
   DEV_StaleExports = FALSE
   DEV_DoubleRemove = FALSE
